@@ -14,7 +14,10 @@ OpLists == {<<>>} \cup {<<a>> : a \in Ops} \cup {<<a, b>> : a \in Ops, b \in Ops
 Ends == {"release", "abort", "leave", "release+abort", "abort+abort", "abort+release", "release+release"}
 Double == {"release+abort", "abort+abort", "abort+release", "release+release"}
 \* notify_abort: a notification handler (EVT_ACSE_RECV) calls abort() when the peer's A-RELEASE-RQ arrives (abort during release)
-AccKinds == {"normal", "handler_abort", "handler_release", "slow", "notify_abort"}
+\* abort_back: both applications abort at the same moment - the acceptor's abort() is called while the requestor's own abort() is
+\* under way (from the requestor's EVT_ACSE_SENT notification of its A-ABORT, i.e. before that call has finished), so the
+\* peer's A-ABORT reaches the requestor's reactor inside its own abort()
+AccKinds == {"normal", "handler_abort", "handler_release", "slow", "notify_abort", "abort_back"}
 \* how the request fails: not at all, called AE title not recognised (rejection, source 1), local limit exceeded (rejection,
 \* source 3), or accepted without a single accepted presentation context (the requestor then aborts)
 Rejects == {"no", "aet", "limit", "nocx"}
@@ -25,7 +28,8 @@ Scenarios == {sc \in [ops : OpLists, end : Ends, acc : AccKinds, side : Sides, m
                 /\ (sc.side = "none" => sc.moment = "early")
                 /\ (sc.end \in Double => sc.side = "none")
                 /\ (sc.reject # "no" => sc.ops = <<>> /\ sc.side = "none" /\ sc.acc = "normal" /\ sc.end \in {"release", "release+abort"})
-                /\ (sc.acc \in {"handler_abort", "handler_release"} => \E k \in 1..Len(sc.ops) : sc.ops[k] = "echo")}
+                /\ (sc.acc \in {"handler_abort", "handler_release"} => \E k \in 1..Len(sc.ops) : sc.ops[k] = "echo")
+                /\ (sc.acc = "abort_back" => sc.end = "abort" /\ sc.side = "none" /\ Len(sc.ops) <= 1)}
 Init == s \in Scenarios
 Next == FALSE /\ s' = s
 Spec == Init /\ [][Next]_s
